@@ -72,6 +72,8 @@ def check_spec(sp, labels, res, tmpdir, precision, reuse=False):
     s0 = roundtrip.snapshot(esc, epps)
     fn = os.path.join(tmpdir, f"f{os.getpid()}.xml")
     scenario_only = sum(map(ord, "".join(labels))) % 7 == 3
+    again = sum(map(ord, "".join(labels))) % 7 == 5        # reader and writer objects are used a second time (roundtrip.reuse_routes)
+    w = None
     try:
         if scenario_only:
             # every 7th spec (fixed by its labels) goes through the other entry point, write_scenario_to_file, and another writer with another
@@ -83,7 +85,7 @@ def check_spec(sp, labels, res, tmpdir, precision, reuse=False):
             w.write_scenario_to_file(fn, OverwriteExistingFile.ALWAYS)
             case = dict(case, entry="write_scenario_to_file")
         else:
-            roundtrip.write(sc, pps, FMT, fn, precision)
+            w = roundtrip.write(sc, pps, FMT, fn, precision)
     except Exception as e:
         res.violation(f"C01|write|raises:{type(e).__name__}:{c02._san(e)}", f"{labels} d={precision}: {e!r}", case)
         return
@@ -103,6 +105,12 @@ def check_spec(sp, labels, res, tmpdir, precision, reuse=False):
         seen.add((p, k))
         res.violation(f"C01|{p}|{k}", f"{list(labels)} d={precision}: {path}: {detail}", case)
     res.outcomes[f"roundtrip-compared:d={precision}"] += 1
+    if again and w is not None:
+        res.transitions += 5
+        case = dict(case, route="reader-and-writer-used-again")
+        for sig, detail in roundtrip.reuse_routes(w, sc, pps, esc, epps, FMT, precision, fn, already=seen):
+            res.violation(f"C01|{sig}", f"{list(labels)} d={precision}: {detail}", case)
+        res.outcomes["reader-and-writer-used-again"] += 1
 
 
 def run_unit(unit, tier):
